@@ -79,8 +79,11 @@ def run_case(rng, tier, idx):
     p.flow = flow
     p.beta = beta
     p.gamma = gamma if gamma else None
+    fresh = bool(rng.random() < 0.4)
+    c.tag('order:fresh' if fresh else 'order:k0_first')
     try:
-        p.calc_k0(silent=True)
+        if not fresh:
+            p.calc_k0(silent=True)
         kA = p.calc_kA(silent=True)
     except Exception as e:
         return c.reject('%s in calc_kA: %s' % (type(e).__name__, str(e)[:100]))
